@@ -157,11 +157,11 @@ def ob_empty(ncols, budget_s=30):
 def obligations(tier):
     obs = []
     if tier == "quick":
-        singles = [1, 2, 3, 4, 6, 7, 8, 11, 12, 13, 16, 48]
+        singles = [1, 2, 3, 4, 6, 7, 8, 11, 12, 13, 16, 32, 48]
         pairs = [(1, 1), (2, 3), (4, 6), (3, 4), (3, 7), (48, 5)]
         b = 200
     else:
-        singles = [1, 2, 3, 4, 5, 6, 7, 8, 9, 11, 12, 13, 16, 48, 64, 192]
+        singles = [1, 2, 3, 4, 5, 6, 7, 8, 9, 11, 12, 13, 16, 32, 48, 64, 96, 192]
         pairs = [(1, 1), (2, 3), (4, 6), (3, 4), (8, 12), (5, 7), (3, 7), (5, 9), (16, 48), (48, 5), (48, 7), (16, 5), (2, 2), (4, 4)]
         b = 3000
     for d in singles:
